@@ -393,9 +393,7 @@ pub fn rollback(home: &AgentpackHome, snapshot_id: &str) -> anyhow::Result<Deplo
             let abs = PathBuf::from(&f.path);
             let before_sha256 = std::fs::read(&abs).ok().map(|b| sha256_hex(&b));
             if abs.exists() {
-                #[cfg(agentpack_verif)]
-                let abs = crate::verif_hooks::point_or_redirect("remove", &abs);
-                std::fs::remove_file(&abs).ok();
+                remove_file_if_present(&abs)?;
             }
             applied.push(AppliedChange {
                 target: f.target.clone(),
@@ -422,9 +420,7 @@ pub fn rollback(home: &AgentpackHome, snapshot_id: &str) -> anyhow::Result<Deplo
                 match (&c.op[..], &c.backup_path) {
                     ("create", None) => {
                         if path.exists() {
-                            #[cfg(agentpack_verif)]
-                            let path = crate::verif_hooks::point_or_redirect("remove", &path);
-                            std::fs::remove_file(&path).ok();
+                            remove_file_if_present(&path)?;
                         }
                         applied.push(AppliedChange {
                             target: c.target.clone(),
@@ -494,6 +490,16 @@ pub fn rollback(home: &AgentpackHome, snapshot_id: &str) -> anyhow::Result<Deplo
     event.save(&event_path)?;
 
     Ok(event)
+}
+
+/// Remove a file during rollback. A file that vanished in the meantime is fine; any other error
+/// (permissions, I/O) must fail the rollback instead of being reported as a successful delete.
+fn remove_file_if_present(path: &Path) -> anyhow::Result<()> {
+    match std::fs::remove_file(path) {
+        Ok(()) => Ok(()),
+        Err(err) if err.kind() == std::io::ErrorKind::NotFound => Ok(()),
+        Err(err) => Err(err).with_context(|| format!("remove {}", path.display())),
+    }
 }
 
 fn snapshot_state_path(state_root: &Path, target: &str, path: &Path) -> anyhow::Result<PathBuf> {
